@@ -101,11 +101,44 @@ Print Assumptions probs_rows_nn.
 
 (** * 3. Fixed point = local arg-max *)
 
-(** When the loop stopped because a sweep changed nothing, every non-seed node with a labelled neighbour holds
-    a label of maximal total vote among its neighbours: counts when unweighted (EVERY kernel variant), edge
-    weights when weighted for a kernel that reads the weight of the edge and clears its scratch list.
-    Excluded by hypothesis: clustering mode (D21) and the positional 'increasing' / 'decreasing' orders. *)
-Theorem propagation_fixed_point_argmax pv c seeds order oracle weighted n_iter fuel res :
+(** Obligations over the generated term (Gen/VoteConsts.v, re-read from /repo on every run): the kernel of the
+    current source reads the weight of the edge, clears its scratch list, sizes votes by the labels, the unit
+    weights are one per edge (D5 / 32660cf6); the clustering test is sign-aware (D21 / 4b87643c); the
+    'increasing' / 'decreasing' orders keep exactly the free nodes (c0b9c86b). Each fails if the defect comes back. *)
+Theorem source_kernel_repaired :
+  wpos src_kernel = true /\ clr src_kernel = true /\ vlab src_kernel = true /\
+  pv_kernel src_variant = src_kernel /\ pv_ones src_variant = Ones_nnz.
+Proof. repeat split; reflexivity. Qed.
+Print Assumptions source_kernel_repaired.
+
+Theorem source_clustering_test_sign_aware : pv_ctest src_variant <> CT_distinct.
+Proof. intros H; cbv in H; discriminate H. Qed.
+Print Assumptions source_clustering_test_sign_aware.
+
+Theorem source_order_keeps_free_nodes : pv_order src_variant = OI_filter.
+Proof. reflexivity. Qed.
+Print Assumptions source_order_keeps_free_nodes.
+
+(** The current source, every node order (any shuffle / any argsort answer), weighted (non-negative weights) or
+    not: when the loop stopped because a sweep changed nothing, every non-seed node with a labelled neighbour holds
+    a label of maximal total vote among its neighbours (edge weights when weighted, counts otherwise). *)
+Theorem propagation_fixed_point_argmax c seeds order oracle weighted n_iter fuel res :
+  (weighted = true -> Forall (fun w => 0 <= w)%Q (c_data c)) ->
+  oracle_contract order oracle seeds ->
+  propagation src_variant c seeds order oracle weighted n_iter fuel = POk res ->
+  pr_fixed res = true -> 0 < pr_sweeps res ->
+  forall i, i < length seeds -> (nthz seeds i < 0)%Z ->
+    has_labelled_neighbour (prop_nbrs c weighted i) (pr_labels res) ->
+    local_max (prop_nbrs c weighted i) (pr_labels res) i.
+Proof.
+  exact (propagation_fixed_point_argmax_repaired src_variant c seeds order oracle weighted n_iter fuel res
+           eq_refl eq_refl source_clustering_test_sign_aware source_order_keeps_free_nodes).
+Qed.
+Print Assumptions propagation_fixed_point_argmax.
+
+(** the general statement, for every variant of the source (unweighted: every kernel; weighted: kernels reading
+    the weight of the edge and clearing their scratch list), outside clustering mode, admissible orders *)
+Theorem propagation_fixed_point_argmax_variants pv c seeds order oracle weighted n_iter fuel res :
   (weighted = true ->
    wpos (pv_kernel pv) = true /\ clr (pv_kernel pv) = true /\ Forall (fun w => 0 <= w)%Q (c_data c)) ->
   clustering_mode (pv_ctest pv) seeds = false -> order_ok (pv_order pv) order oracle seeds ->
@@ -115,7 +148,7 @@ Theorem propagation_fixed_point_argmax pv c seeds order oracle weighted n_iter f
     has_labelled_neighbour (prop_nbrs c weighted i) (pr_labels res) ->
     local_max (prop_nbrs c weighted i) (pr_labels res) i.
 Proof. exact (propagation_fixed_point_argmax_model pv c seeds order oracle weighted n_iter fuel res). Qed.
-Print Assumptions propagation_fixed_point_argmax.
+Print Assumptions propagation_fixed_point_argmax_variants.
 
 (** the same at the level of one call of the kernel (any update list without repetition) *)
 Theorem vote_fixed_point_unweighted kv indptr indices m labels index labels' :
@@ -139,14 +172,6 @@ Theorem vote_fixed_point_weighted kv indptr indices data labels index labels' :
             local_max (nbrs_weighted indptr indices data i) labels' i.
 Proof. exact (VoteProofs.vote_fixed_point_weighted kv indptr indices data labels index labels'). Qed.
 Print Assumptions vote_fixed_point_weighted.
-
-(** Obligation over the generated term: the kernel of the CURRENT source is of the kind the weighted theorem
-    covers, sizes votes by the labels, and the unit weights are one per edge (fails if D5 comes back). *)
-Theorem source_kernel_repaired :
-  wpos src_kernel = true /\ clr src_kernel = true /\ vlab src_kernel = true /\
-  pv_kernel src_variant = src_kernel /\ pv_ones src_variant = Ones_nnz.
-Proof. repeat split; reflexivity. Qed.
-Print Assumptions source_kernel_repaired.
 
 (** D5, the LEGACY kernel (before 32660cf6: weight read at data[node], votes_neigh never cleared): a fixed point
     of weighted propagation where node 3 keeps label 0 against weights 2 > 1 *)
@@ -173,14 +198,26 @@ Print Assumptions propagation_weighted_refuted.
 
 (** * 4. Seeds keep their labels *)
 
-(** Propagation, outside clustering mode, for the index order, any shuffle, and (with the filtering reorder)
-    any argsort *)
-Theorem propagation_seeds_fixed pv c seeds order oracle weighted n_iter fuel res :
+(** The current source, every node order and oracle answer: with at least one unlabelled node, every seed keeps
+    its label. (A vector of n distinct non-negative labels is the documented clustering mode.) *)
+Theorem propagation_seeds_fixed c seeds order oracle weighted n_iter fuel res :
+  (exists i, i < length seeds /\ (nthz seeds i < 0)%Z) ->
+  oracle_contract order oracle seeds ->
+  propagation src_variant c seeds order oracle weighted n_iter fuel = POk res ->
+  forall i, i < length seeds -> (0 <= nthz seeds i)%Z -> nthz (pr_labels res) i = nthz seeds i.
+Proof.
+  exact (propagation_seeds_fixed_repaired src_variant c seeds order oracle weighted n_iter fuel res
+           source_clustering_test_sign_aware source_order_keeps_free_nodes).
+Qed.
+Print Assumptions propagation_seeds_fixed.
+
+(** the general statement for every variant of the source *)
+Theorem propagation_seeds_fixed_variants pv c seeds order oracle weighted n_iter fuel res :
   propagation pv c seeds order oracle weighted n_iter fuel = POk res ->
   clustering_mode (pv_ctest pv) seeds = false -> order_ok (pv_order pv) order oracle seeds ->
   forall i, i < length seeds -> (0 <= nthz seeds i)%Z -> nthz (pr_labels res) i = nthz seeds i.
 Proof. exact (propagation_seeds_fixed_model pv c seeds order oracle weighted n_iter fuel res). Qed.
-Print Assumptions propagation_seeds_fixed.
+Print Assumptions propagation_seeds_fixed_variants.
 
 (** a clustering test that looks at the signs leaves clustering mode as soon as one node is unlabelled *)
 Theorem clustering_mode_needs_no_unlabelled ct seeds :
@@ -188,19 +225,20 @@ Theorem clustering_mode_needs_no_unlabelled ct seeds :
 Proof. exact (clustering_mode_unlabelled ct seeds). Qed.
 Print Assumptions clustering_mode_needs_no_unlabelled.
 
-(** D21 (current source): n-1 distinct labels and one unlabelled node are taken for clustering mode;
-    [[0,4,0],[4,0,0],[0,0,0]] with seeds {0:0, 1:1} returns [1,1,-1] *)
-Theorem propagation_seeds_fixed_refuted :
+(** D21, LEGACY source (before 4b87643c, test len(set(labels)) == n): n-1 distinct labels and one unlabelled node were
+    taken for clustering mode; [[0,4,0],[4,0,0],[0,0,0]] with seeds {0:0, 1:1} returned [1,1,-1] *)
+Theorem propagation_seeds_fixed_refuted_legacy :
   let c := {| c_indptr := [0; 1; 2; 2]; c_indices := [1; 0]; c_data := [4; 4]%Q |} in
   let seeds := [0; 1; -1]%Z in
   exists res, propagation pv_32660cf6 c seeds ONone [] true None 10 = POk res /\
     pr_labels res = [1; 1; -1]%Z /\ nthz seeds 0 = 0%Z /\ nthz (pr_labels res) 0 <> nthz seeds 0 /\
     clustering_mode CT_distinct seeds = true.
-Proof. exact ClassifyProofs.propagation_seeds_fixed_refuted. Qed.
-Print Assumptions propagation_seeds_fixed_refuted.
+Proof. exact ClassifyProofs.propagation_seeds_fixed_refuted_legacy. Qed.
+Print Assumptions propagation_seeds_fixed_refuted_legacy.
 
-(** node_order = 'increasing' (current source, valid argsort answer): seed 3 loses its label, node 0 is never updated *)
-Theorem propagation_seeds_fixed_order_refuted :
+(** LEGACY source (before c0b9c86b), node_order = 'increasing' with a valid argsort answer: seed 3 lost its label,
+    node 0 was never updated *)
+Theorem propagation_seeds_fixed_order_refuted_legacy :
   let c := {| c_indptr := [0; 2; 5; 7; 8]; c_indices := [1; 2; 0; 2; 3; 0; 1; 1];
               c_data := [1; 1; 1; 1; 1; 1; 1; 1]%Q |} in
   let seeds := [-1; 0; -1; 1]%Z in
@@ -211,8 +249,20 @@ Theorem propagation_seeds_fixed_order_refuted :
   exists res, propagation pv_32660cf6 c seeds OIncreasing oracle true (Some 5) 5 = POk res /\
     pr_index res = [3; 2] /\ pr_labels res = [-1; 0; 0; 0]%Z /\
     nthz seeds 3 = 1%Z /\ nthz (pr_labels res) 3 <> nthz seeds 3.
-Proof. exact propagation_order_refuted. Qed.
-Print Assumptions propagation_seeds_fixed_order_refuted.
+Proof. exact propagation_order_refuted_legacy. Qed.
+Print Assumptions propagation_seeds_fixed_order_refuted_legacy.
+
+(** the repaired variant on both witnesses *)
+Theorem propagation_repaired_on_legacy_witnesses :
+  (exists res, propagation pv_repaired {| c_indptr := [0; 1; 2; 2]; c_indices := [1; 0]; c_data := [4; 4]%Q |}
+                           [0; 1; -1]%Z ONone [] true None 10 = POk res /\ pr_labels res = [0; 1; -1]%Z) /\
+  (exists res, propagation pv_repaired
+                 {| c_indptr := [0; 2; 5; 7; 8]; c_indices := [1; 2; 0; 2; 3; 0; 1; 1];
+                    c_data := [1; 1; 1; 1; 1; 1; 1; 1]%Q |}
+                 [-1; 0; -1; 1]%Z OIncreasing [3; 0; 2; 1] true (Some 5) 5 = POk res /\
+               pr_index res = [0; 2] /\ pr_labels res = [0; 0; 0; 1]%Z).
+Proof. exact repaired_on_legacy_witnesses. Qed.
+Print Assumptions propagation_repaired_on_legacy_witnesses.
 
 (** * 5. DiffusionClassifier, NNClassifier, NNLinker *)
 
@@ -270,14 +320,14 @@ Print Assumptions nnlinker_rows_are_topk.
 Example c13_nonvacuous_propagation :
   let c := {| c_indptr := [0; 1; 3; 5; 6]; c_indices := [1; 0; 2; 1; 3; 2]; c_data := [3; 3; 1; 1; 2; 2]%Q |} in
   let seeds := [0; -1; -1; 1]%Z in
-  clustering_mode (pv_ctest src_variant) seeds = false /\ order_ok (pv_order src_variant) ONone [] seeds /\
+  (exists i, i < length seeds /\ (nthz seeds i < 0)%Z) /\ oracle_contract ONone [] seeds /\
   Forall (fun w => 0 <= w)%Q (c_data c) /\
   exists res, propagation src_variant c seeds ONone [] true None 10 = POk res /\
     pr_labels res = [0; 0; 1; 1]%Z /\ pr_fixed res = true /\ pr_sweeps res = 2 /\
     has_labelled_neighbour (prop_nbrs c true 1) (pr_labels res) /\
     local_max_b (prop_nbrs c true 1) (pr_labels res) 1 = true.
 Proof.
-  cbv zeta. split; [reflexivity|]. split; [exact I|]. split; [repeat constructor; discriminate|].
+  cbv zeta. split; [exists 1; split; [simpl; lia|reflexivity]|]. split; [exact I|]. split; [repeat constructor; discriminate|].
   eexists. split; [vm_compute; reflexivity|]. cbn [pr_labels pr_fixed pr_sweeps].
   split; [reflexivity|]. split; [reflexivity|]. split; [reflexivity|]. split.
   - exists (0, 3%Q). split; [vm_compute; auto|]. vm_compute. discriminate.
